@@ -88,6 +88,9 @@ type GunScript struct {
 	WarmUp    bool
 	WarmUpErr bool
 	Report    bool // report a netsample per shot to the bound aggregator
+	// ReportOnClose: a closable gun reports one more sample from Close (after CloseDur)
+	ReportOnClose bool
+	CloseDur      time.Duration
 	// JSONSamples: report a JSON-marshalable sample (for the jsonlines aggregator) instead of a netsample
 	JSONSamples bool
 }
@@ -194,6 +197,21 @@ type ClosableGun struct{ *Gun }
 
 func (g *ClosableGun) Close() error {
 	g.closed++
+	if g.f.Script.ReportOnClose && g.aggr != nil {
+		// a pipelined gun: answers still in flight are awaited and reported while the gun is being closed
+		if g.f.Script.CloseDur > 0 {
+			time.Sleep(g.f.Script.CloseDur)
+		}
+		tag := fmt.Sprintf("i%d_close", g.inst)
+		if g.f.Script.JSONSamples {
+			g.aggr.Report(&JSONSample{Tag: tag})
+		} else {
+			s := netsample.Acquire(tag)
+			s.SetProtoCode(200)
+			g.aggr.Report(s)
+		}
+		g.f.Log.Add(Ev{Kind: "close-report", Inst: g.inst, Ptr: g.Gun})
+	}
 	g.f.Log.Add(Ev{Kind: "gun-close", Inst: g.inst, Ptr: g.Gun})
 	if g.f.Script.CloseErr {
 		return fmt.Errorf("injected close error")
